@@ -7,6 +7,7 @@ import (
 	"tunnox-core/internal/cloud/models"
 	"tunnox-core/internal/cloud/repos"
 	coreerrors "tunnox-core/internal/core/errors"
+	"tunnox-core/internal/core/storage/memory"
 	"tunnox-core/internal/httpservice"
 )
 
@@ -103,4 +104,54 @@ func Harness_C19_lookup_layers() {
 		verif_Assert("C19.layers.unknown_rejected", err != nil && pm == nil)
 	}
 	verif_Cover("C19.layers.done")
+}
+
+// The lookup chain over the REAL repository and the real legacy registry, through a domain's life:
+// claimed by one client, served (the host is looked up, with or without a port), deleted, claimed
+// by another client, deleted again. At every point a request for the host goes to the current
+// owner's client and target, or is rejected when nobody owns the name - never to a former owner.
+func Harness_C19_lookup_lifecycle() {
+	ctx := context.Background()
+	verif_ClockSet(int64(1) << 60)
+	repo := repos.NewHTTPDomainMappingRepository(repos.NewRepository(memory.New(ctx)), []string{"tunnox.net"})
+	registry := httpservice.NewDomainRegistry([]string{"tunnox.net"})
+	m := &DomainProxyModule{deps: &httpservice.ModuleDependencies{DomainRegistry: registry, HTTPDomainMappingRepo: repo}}
+	hosts := []string{"app.tunnox.net", "app.tunnox.net:443"}
+	var owner int64 // 0: nobody
+	var ownerPort int
+	var cur *repos.HTTPDomainMapping
+	check := func(tag string) {
+		pm, err := m.lookupMapping(hosts[verif_Choose(2)])
+		if owner == 0 {
+			verif_Assert("C19.life."+tag+".unowned_rejected", err != nil && pm == nil)
+		} else {
+			verif_Assert("C19.life."+tag+".routes_to_owner", err == nil && pm != nil && pm.TargetClientID == owner && pm.TargetPort == ownerPort)
+		}
+	}
+	n := verif_Bound("events")
+	for i := 0; i < n; i++ {
+		switch verif_Choose(3) {
+		case 0: // a client claims the name
+			c := []int64{1001, 2002}[verif_Choose(2)]
+			port := 8000 + int(c%10)
+			mp, err := repo.CreateMapping(ctx, c, "app", "tunnox.net", "127.0.0.1", port)
+			if owner == 0 {
+				verif_Assert("C19.life.claim_free_name", err == nil && mp != nil)
+				owner, ownerPort, cur = c, port, mp
+			} else {
+				verif_Assert("C19.life.claim_owned_name_refused", err != nil)
+			}
+		case 1: // the owner deletes its mapping
+			if cur == nil {
+				continue
+			}
+			verif_Assert("C19.life.owner_deletes", repo.DeleteMapping(ctx, cur.ID, owner) == nil)
+			owner, ownerPort, cur = 0, 0, nil
+			verif_Cover("C19.life.deleted")
+		case 2: // a request for the host is served
+			check("served")
+		}
+	}
+	check("final")
+	verif_Cover("C19.life.done")
 }
